@@ -1015,26 +1015,52 @@ def check_pending(ck, prog):
             pend[lb["n"]] = hit
     if not pend:
         raise AnalysisBroken("stream_decode_mt: no state reaches a Block decoder initialisation without the limit test")
-    # states that memconfig singles out and for which it raises *memusage
-    covered = set()
-    en = common.state_enum_of_switch(prog, f, swb)
-    for b in mc.blocks.values():
-        names = set()
-        if b.term and "cond" in b.term:
-            for x in ex.walk(b.term["cond"]):
-                if x.get("k") == "enum" and x.get("n") in en:
-                    names.add(x["n"])
-        if b.label and b.label.get("n") in en:
-            names.add(b.label["n"])
-        if not names:
+    # the state in which LZMA_MEMLIMIT_ERROR is returned (the guard is its first statement) reports the amount as well
+    case_blocks = {bid for lb, bid in cfg.case_targets(f, swb)}
+    for lb, bid in cfg.case_targets(f, swb):
+        if not lb or not lb.get("n") or lb["n"] in pend:
             continue
-        reach = cfg.reachable(mc, [y for y in b.succs if y is not None]) | {b.id}
-        raises = any(bb.id in reach and ex.show(ex.strip(l)).replace(" ", "") == "*memusage"
-                     for bb, ii, ee in mc.iter_elems() for (l, r, op, node) in ex.writes(ee))
-        if raises:
-            covered |= names
+        seen, st = set(), [bid]
+        while st:
+            x = st.pop()
+            if x in seen or x is None or x == swb.id or (x in case_blocks and x != bid):
+                continue
+            seen.add(x)
+            if x in guards:
+                pend[lb["n"]] = x
+                break
+            st.extend(f.blocks[x].succs)
+    # what memconfig reports in each state: finite-domain evaluation with sentinel values for the two pending amounts
+    # (everything else unknown): in a pending state some exit must carry the sentinel in *memusage
+    en = common.state_enum_of_switch(prog, f, swb)
+    seqnode = ex.strip(swb.term["cond"])
+    A, B = 10 ** 9, 2 * 10 ** 9
+    kseq = fd.Key("field", seqnode["f"], rec=seqnode.get("rec"), domain=en.values(), label="seq")
+    kf = fd.Key("field", "mem_next_filters", rec=seqnode.get("rec"), domain=(A,), label="nf")
+    kb = fd.Key("field", "mem_next_block", rec=seqnode.get("rec"), domain=(B,), label="nb")
+    km = fd.Key("var", "$memusage", label="mu")
+    km.matches = lambda n: (ex.strip(n) is not None and ex.strip(n).get("k") == "un" and ex.strip(n)["op"] == "*" and
+                            ex.show(ex.strip(ex.strip(n)["e"])) == "memusage")
+    locs = [fd.Key("var", v["n"], label="l_" + v["n"]) for v in mc.vars if not v.get("param") and "uint64" in (v.get("ty") or "")]
+    covered = set()
+    cgm = common.callgraph(prog)
+    for st_ in pend:
+        g = fd.FD(prog, mc, [kseq, kf, kb, km] + locs, cg=cgm, split=300)
+        g.run([g.make_state(seq=[en[st_]], nf=[A], nb=[B])])
+        vals = [g.get(nd[1], "mu") for nd in g.nodes if nd[0] == mc.exit]
+        want = {B} if "THR" in st_ else None
+        if any(v is not None and len(v) == 1 and (list(v)[0] in ((B,) if want else (A, B))) for v in vals):
+            covered.add(st_)
     for st_, blk in sorted(pend.items()):
         ok = st_ in covered
+        if blk in guards:
+            ck.ob("C09-PENDING", "stream_decode_mt:" + st_, ok, common.where(f, f.blocks[blk].term["cond"]),
+                  "%s: LZMA_MEMLIMIT_ERROR is returned here; memconfig reports the amount that is needed" % st_ if ok else
+                  "stream_decode_mt() returns LZMA_MEMLIMIT_ERROR in state %s but stream_decoder_mt_memconfig() does not report "
+                  "coder->mem_next_filters there: lzma_memusage() tells the application what happens to be allocated instead of "
+                  "what is needed, and lzma_memlimit_set() accepts limits that are still too low" % st_,
+                  key="PENDING:stream_decode_mt:" + st_)
+            continue
         ck.ob("C09-PENDING", "stream_decode_mt:" + st_, ok, common.where(f, f.blocks[blk].elems[0] if f.blocks[blk].elems else None),
               "%s: a Block decoder is initialised (line %s) without re-testing memlimit_stop; memconfig counts the pending "
               "Block in this state" % (st_, cfg.block_lines(f, blk)[0] if cfg.block_lines(f, blk) else "?") if ok else
@@ -1043,7 +1069,7 @@ def check_pending(ck, prog):
               "lzma_memlimit_set() accepts a limit below what the already accepted Block needs -- the hard limit is then "
               "exceeded (direct mode) or memlimit_threading falls below mem_next_block and the Block can never start" % (st_, blk),
               key="PENDING:stream_decode_mt:" + st_)
-    ck.floor("C09-PENDING", 2)
+    ck.floor("C09-PENDING", 3)
 
 
 def check_kept(ck, prog):
